@@ -134,6 +134,12 @@ class ShortReadStringIO(io.StringIO):
         return super().read(min(n, self._k))
 
 
+def norm_paths(msg):
+    """netconan builds paths like /simfs/in/./a.cfg (and /simfs/in/././a.cfg when the argument ends in "/."); collapse them."""
+    import re
+    return re.sub(r"(?:/\.)+(?=/)", "", msg).replace("//", "/")
+
+
 def _decode_universal(data):
     return io.TextIOWrapper(io.BytesIO(data), encoding="utf-8", newline=None).read()
 
@@ -142,7 +148,7 @@ def run_step(fs, proc, step, hist):
     """Execute one step inside an already active process; records outcome into hist."""
     o = step["opts"]
     entry = step["entry"]
-    inp, out = fs.abs(step["in"]), fs.abs(step["out"])
+    inp, out = fs.abs(step["in"]) + step.get("in_suffix", ""), fs.abs(step["out"]) + step.get("out_suffix", "")
     dump = fs.abs(step["dump"]) if step.get("dump") else None
     rec = {"entry": entry, "outcome": "ok", "failed_files": {}, "order": None}
     hist["steps"].append(rec)
@@ -158,6 +164,7 @@ def run_step(fs, proc, step, hist):
             if files is None:
                 files = [step["in"]] if inp in fs.files else walk_order(fs, step["in"])
             rec["order"] = list(files)
+            inp, out = fs.abs(step["in"]), fs.abs(step["out"])
             single = inp in fs.files
             between = list(step.get("between") or [])
             for nfile, rel in enumerate(files):
